@@ -335,12 +335,13 @@ type replayResult struct {
 
 // handleViolation shrinks, replays in a fresh process, writes the replay file.
 func handleViolation(f *found, race bool) string {
-	os.MkdirAll(filepath.Join(verifDir, "replays"), 0o755)
+	rdir := envOr("VERIF_REPLAY_DIR", filepath.Join(verifDir, "replays"))
+	os.MkdirAll(rdir, 0o755)
 	name := fmt.Sprintf("%s-%d-%d.json", f.Prop, f.BaseSeed, f.Index)
 	if f.Index < 0 {
 		name = fmt.Sprintf("%s-%d-corpus%d.json", f.Prop, f.BaseSeed, -f.Index-1)
 	}
-	path := filepath.Join(verifDir, "replays", name)
+	path := filepath.Join(rdir, name)
 	f.Source = istats.SourceSHA
 	f.Replay = "/verif/check --replay " + path
 	if race {
@@ -556,9 +557,10 @@ func check(prop, tier string) int {
 		"property_id": prop, "tier": tier, "seed": int64(seed), "level": "exploration",
 		"coverage": cov, "assumptions": append(append([]string{}, commonAssumptions...), cfg.Assumptions...), "wall_s": wall, "violations": violations,
 	}
-	os.MkdirAll(filepath.Join(verifDir, "evidence"), 0o755)
+	edir := envOr("VERIF_EVIDENCE_DIR", filepath.Join(verifDir, "evidence"))
+	os.MkdirAll(edir, 0o755)
 	eb, _ := json.MarshalIndent(ev, "", " ")
-	if err := os.WriteFile(filepath.Join(verifDir, "evidence", prop+".json"), eb, 0o644); err != nil {
+	if err := os.WriteFile(filepath.Join(edir, prop+".json"), eb, 0o644); err != nil {
 		die(2, "writing evidence: %v", err)
 	}
 	fmt.Printf("%s %s: %d runs, %d distinct non-trivial, %.1fs simulated, %.1fs wall\n", prop, tier, evals, distinct, float64(simNs)/1e9, wall)
